@@ -244,6 +244,10 @@ def _parts(tier):
     out = []
     out.append(("rich_divs12", lambda: G.rich_part("P1", 12)))
     out.append(("rich_divs6", lambda: G.rich_part("P1", 6)))
+    # the timeline goes on after the last barline (a pedal mark and a final note held longer than the last bar)
+    out.append(("timeline_continues_past_the_last_barline", lambda: G.build_part("P1", 4, notes=[("a", 0, 16, "C", None, 4, 1, 1), ("b", 16, 8, "D", None, 4, 1, 1), ("c", 24, 16, "E", None, 4, 1, 1), ("lo", 20, 4, "C", None, 3, 2, 1)],
+                                                                                rests=[("r", 16, 4, 2, 1)], measures=[(0, 16), (16, 32)], key=(0, "major"),
+                                                                                extra=lambda p, byid: p.add(sc.SustainPedalDirection(), 0, 44))))
     out.append(("tie_chain_3_measures", lambda: G.build_part("P1", 2, notes=[("a0", 0, 8, "B", None, 3, 1, 1), ("a1", 8, 8, "B", None, 3, 1, 1), ("a2", 16, 4, "B", None, 3, 1, 1), ("a3", 20, 4, "C", 1, 4, None, None),
                                                                                ("lo", 0, 24, "C", None, 2, 2, 2)], ties=[("a0", "a1"), ("a1", "a2")], key=(-2, "minor"))))
     out.append(("pickup_signature_change", lambda: G.build_part("P1", 4, ts=((0, 3, 4), (28, 6, 8)), notes=[("u", 0, 4, "G", None, 4, 1, 1), ("a", 4, 12, "C", None, 5, 1, 1), ("b", 16, 12, "E", -1, 5, 1, 1), ("c", 28, 6, "F", 1, 4, 1, 1),
@@ -353,6 +357,21 @@ def bounded(b):
             case = {"score_divs": list(divs), "unique_id_per_part": uid}
             if notefree:
                 case["parts_without_notes"] = notefree
+            if len(pl) == 3 and not notefree:
+                # the same parts with the first two inside a part group, and a score whose part list was changed after construction:
+                # the array is the union over the score's parts as they are now, prefixed by their position in that flat list
+                import partitura.score as _sc2
+                grp = _sc2.PartGroup(group_name="g")
+                grp.children = pl[:2]
+                for c_ in pl[:2]:
+                    c_.parent = grp
+                nested = _sc2.Score(partlist=[grp, pl[2]], id="S")
+                okn, nan = b.guard("score_array/no_exception", dict(case, structure="[group[P0, P1], P2]"), lambda: nested.note_array(unique_id_per_part=uid, include_divs_per_quarter=True))
+                ok0, na0 = b.guard("score_array/no_exception", case, lambda: score.note_array(unique_id_per_part=uid, include_divs_per_quarter=True))
+                if okn and ok0:
+                    key_ = lambda na_: [(int(r["onset_div"]), int(r["duration_div"]), int(r["pitch"]), str(r["id"])) for r in na_]
+                    b.case("score_array/union_rescaled_to_lcm_with_part_prefixed_ids", key_(nan) == key_(na0), dict(case, structure="[group[P0, P1], P2]"),
+                           "rows of the score with a part group %r, of the flat score %r" % (key_(nan)[:4], key_(na0)[:4]))
             ok, na = b.guard("score_array/no_exception", case, lambda: score.note_array(unique_id_per_part=uid, include_divs_per_quarter=True))
             if not ok:
                 continue
